@@ -392,3 +392,127 @@ Proof.
     destruct (set_nth i v d) as [d'|] eqn:Es; cbn; [|discriminate]. intros _.
     exists i, d, d'. repeat split; auto. intros k. apply find_put.
 Qed.
+
+(* ------------------------------------------------------------------------------------------ *)
+(* RUID generation.  Runtime::generate_ruid (system_modules/transaction_runtime/module.rs):
+       ruid = hash(tx_hash ++ next_id.to_le_bytes());  next_id += 1      (next_id starts at 0 per transaction)
+   and NonFungibleLocalId::ruid(ruid). The model abstracts the hash as H : (tx, counter) -> id
+   content and states what uniqueness rests on:
+     - H is collision-free on the inputs used (Blake2b-256, visible hypothesis),
+     - no (tx_hash, counter) pair is used twice: transaction hashes are unique per committed
+       transaction (replay protection, C07) and the counter only increases within a transaction. *)
+Section Ruid.
+Variable H : N * N -> N.
+Hypothesis H_inj : forall a b, H a = H b -> a = b.
+
+Definition genid (p : N * N) : nfid := (TRUID, H p).
+Fixpoint pairs_from (tx k0 : N) (n : nat) : list (N * N) :=
+  match n with O => [] | S n' => (tx, k0) :: pairs_from tx (k0 + 1) n' end.
+
+(* operations of a history, RUID mints carrying the transaction hash and the counter value at
+   which their generation starts *)
+Inductive gop :=
+  | GMint (es : list (nfid * data))
+  | GBurn (ids : list nfid)
+  | GUpdate (id : nfid) (f v : N)
+  | GRuid (tx k0 : N) (ds : list data).
+Definition gpairs (g : gop) : list (N * N) :=
+  match g with GRuid tx k0 ds => pairs_from tx k0 (length ds) | _ => [] end.
+Definition to_op (g : gop) : op :=
+  match g with
+  | GMint es => OMint es
+  | GBurn ids => OBurn ids
+  | GUpdate id f v => OUpdate id f v
+  | GRuid tx k0 ds => OMintRuid (combine (map genid (pairs_from tx k0 (length ds))) ds)
+  end.
+
+Lemma pairs_from_length : forall n tx k0, length (pairs_from tx k0 n) = n.
+Proof. induction n; intros; cbn; [reflexivity|rewrite IHn; reflexivity]. Qed.
+Lemma map_fst_combine : forall A B (l : list A) (l' : list B), length l = length l' -> map fst (combine l l') = l.
+Proof.
+  induction l as [|x l IH]; intros [|y l'] Hl; cbn in *; try discriminate; [reflexivity|].
+  rewrite IH; [reflexivity|]. inversion Hl. reflexivity.
+Qed.
+Lemma minted_to_op : forall g, minted_ids (to_op g) =
+  match g with GMint es => map fst es | GRuid tx k0 ds => map genid (pairs_from tx k0 (length ds)) | _ => [] end.
+Proof.
+  destruct g; cbn; try reflexivity. apply map_fst_combine. rewrite map_length, pairs_from_length. reflexivity.
+Qed.
+
+(* what a step can add to the set of existing ids *)
+Lemma ever_step_inv : forall m o id, ever (fst (step m o)) id -> ever m id \/ (is_ok (snd (step m o)) = true /\ In id (minted_ids o)).
+Proof.
+  unfold ever. intros m o id. destruct o as [es|es|ids|id0 f v]; cbn.
+  - destruct (idtype_eqb (r_idtype m) TRUID); cbn; [auto|].
+    destruct (create_nfs _ _ _ _ _) eqn:E; cbn; auto.
+    destruct (create_nfs_ok _ _ _ _ _ _ E) as (A & B & C & D & F).
+    intros Hid. destruct (in_dec nfid_dec id (map fst es)) as [Hin|Hnin]; [right; auto|left; rewrite <- (D id Hnin); exact Hid].
+  - destruct (negb (idtype_eqb (r_idtype m) TRUID)); cbn; [auto|].
+    destruct (create_nfs _ _ _ _ _) eqn:E; cbn; auto.
+    destruct (create_nfs_ok _ _ _ _ _ _ E) as (A & B & C & D & F).
+    intros Hid. destruct (in_dec nfid_dec id (map fst es)) as [Hin|Hnin]; [right; auto|left; rewrite <- (D id Hnin); exact Hid].
+  - destruct (forallb (is_live (r_store m)) ids) eqn:Ef; cbn; [|auto]. rewrite burn_fold.
+    destruct (existsb (nfid_eqb id) ids) eqn:Ex; [|auto]. intros _. left.
+    apply existsb_exists in Ex. destruct Ex as [k [Hin Ek]]. apply nfid_eqb_eq in Ek. subst k.
+    rewrite forallb_forall in Ef. specialize (Ef id Hin). unfold is_live in Ef.
+    destruct (find id (r_store m)); [discriminate|discriminate].
+  - destruct (lookup_field f (r_mutable m)); cbn; [|auto]. destruct (find id0 (r_store m)) as [[d|]|] eqn:Ef; cbn; auto.
+    destruct (set_nth n v d); cbn; [|auto]. rewrite find_put. destruct (nfid_eqb id id0) eqn:E; [|auto].
+    intros _. left. apply nfid_eqb_eq in E. subst. rewrite Ef. discriminate.
+Qed.
+
+(* on a RUID resource that started empty, every existing id is the image of a pair used earlier *)
+Lemma ruid_store_generated : forall gs m id,
+  r_idtype m = TRUID -> ever (final m (map to_op gs)) id ->
+  ever m id \/ In id (map genid (concat (map gpairs gs))).
+Proof.
+  induction gs as [|g gs IH]; intros m id Ht He; cbn in *; [left; exact He|].
+  change (fold_left (fun m0 o => fst (step m0 o)) (map to_op gs) (fst (step m (to_op g))))
+    with (final (fst (step m (to_op g))) (map to_op gs)) in He.
+  assert (Ht' : r_idtype (fst (step m (to_op g))) = TRUID) by (rewrite (proj1 (step_cfg m (to_op g))); exact Ht).
+  destruct (IH _ _ Ht' He) as [H1|H1].
+  - destruct (ever_step_inv _ _ _ H1) as [H2|[Hok Hin]]; [left; exact H2|right].
+    rewrite map_app. apply in_or_app. left.
+    destruct g as [es|ids0|id0 f v|tx k0 ds].
+    + exfalso. destruct (mint_wrong_kind_fails m es) as [A _].
+      change (to_op (GMint es)) with (OMint es) in Hok. rewrite (A Ht) in Hok. discriminate.
+    + cbn in Hin. contradiction.
+    + cbn in Hin. contradiction.
+    + rewrite minted_to_op in Hin. exact Hin.
+  - right. rewrite map_app. apply in_or_app. right. exact H1.
+Qed.
+
+(* FRESHNESS DERIVED: in a history on a RUID resource created empty, in which no (tx, counter) pair
+   is used twice, the ids of every RUID mint are new to the resource at the time of the mint *)
+Theorem ruid_fresh_derived : forall m gs1 g gs2,
+  r_idtype m = TRUID -> r_store m = [] ->
+  NoDup (concat (map gpairs (gs1 ++ g :: gs2))) ->
+  ruid_fresh (final m (map to_op gs1)) (to_op g).
+Proof.
+  intros m gs1 g gs2 Ht Hs Hnd. destruct g as [es|ids|id f v|tx k0 ds]; cbn; auto.
+  intros id Hin. rewrite map_fst_combine in Hin by (rewrite map_length, pairs_from_length; reflexivity).
+  destruct (find id (r_store (final m (map to_op gs1)))) eqn:Ef; [|reflexivity]. exfalso.
+  assert (He : ever (final m (map to_op gs1)) id) by (unfold ever; rewrite Ef; discriminate).
+  destruct (ruid_store_generated _ _ _ Ht He) as [H1|H1].
+  - unfold ever in H1. rewrite Hs in H1. cbn in H1. contradiction.
+  - apply in_map_iff in Hin. destruct Hin as [p [Hp Hpin]]. apply in_map_iff in H1. destruct H1 as [q [Hq Hqin]].
+    assert (Epq : p = q). { apply H_inj. unfold genid in *. congruence. } subst q.
+    rewrite map_app, concat_app in Hnd. cbn [map concat] in Hnd.
+    cbn [gpairs] in Hnd. clear - Hnd Hpin Hqin.
+    remember (concat (map gpairs gs1)) as l1. clear Heql1.
+    induction l1 as [|x l1 IH]; [contradiction|]. cbn in Hnd. inversion Hnd as [|? ? Hx Hrest]. subst.
+    destruct Hqin as [->|Hq'].
+    + apply Hx. apply in_or_app. right. apply in_or_app. left. exact Hpin.
+    + apply IH; assumption.
+Qed.
+
+(* consequence: all ids ever minted by RUID mints of such a history are pairwise distinct *)
+Theorem ruid_ids_distinct : forall gs, NoDup (concat (map gpairs gs)) ->
+  NoDup (map genid (concat (map gpairs gs))).
+Proof.
+  intros gs Hnd. induction Hnd as [|x l Hx Hnd IH]; cbn; constructor; [|exact IH].
+  intros Hin. apply in_map_iff in Hin. destruct Hin as [y [Hy Hyin]].
+  assert (y = x) by (apply H_inj; unfold genid in Hy; congruence). subst. contradiction.
+Qed.
+
+End Ruid.
